@@ -8,6 +8,7 @@ import (
 	"go/token"
 	"go/types"
 	"math/big"
+	"sort"
 	"strings"
 
 	"golang.org/x/tools/go/ssa"
@@ -58,13 +59,32 @@ func (vc *FnVC) newAllocRef(prefix string) string {
 	for _, o := range vc.allocRefs {
 		vc.fact(fmt.Sprintf("(not (= %s %s))", a, o))
 	}
-	for _, p := range vc.fn.Params {
-		switch p.Type().Underlying().(type) {
-		case *types.Pointer:
-			vc.fact(fmt.Sprintf("(not (= %s %s))", a, vc.vals[p].S))
-		case *types.Slice:
-			vc.fact(fmt.Sprintf("(not (= %s (s.arr %s)))", a, vc.vals[p].S))
+	// a new object differs from every pointer value that exists already
+	var olds []string
+	seen := map[string]bool{}
+	for v, t := range vc.vals {
+		if t.T == nil || v == nil {
+			continue
 		}
+		var s string
+		switch t.T.Underlying().(type) {
+		case *types.Pointer:
+			if t.Sort == "Int" {
+				s = t.S
+			}
+		case *types.Slice:
+			if t.Sort == "Slice" {
+				s = fmt.Sprintf("(s.arr %s)", t.S)
+			}
+		}
+		if s != "" && !seen[s] && !vc.freshRoots[s] {
+			seen[s] = true
+			olds = append(olds, s)
+		}
+	}
+	sort.Strings(olds)
+	for _, s := range olds {
+		vc.fact(fmt.Sprintf("(not (= %s %s))", a, s))
 	}
 	vc.allocRefs = append(vc.allocRefs, a)
 	vc.freshRoots[a] = true
